@@ -10,9 +10,20 @@
 // on both sides, ASan red zones in the `san` flavour) for every len in 0..digits+2.  A
 // zero-length range is the one-past-the-end pointer of a block, so a write to *first is
 // outside the allocation.  Enumeration is a fixed odometer (value, base, len); nothing random.
+//
+// Round 2 widening (MC_PART 5: the four character types; MC_PART 4: round trips across functions):
+//   * char8_t / char16_t / char32_t / wchar_t through to_chars, from_integer and the from_chars round
+//     trip (reference: std::to_chars of the standard integer type of the same width and signedness);
+//   * round trips ACROSS functions, tetl on tetl, "parsing the output of formatting returns the value":
+//       to_chars(v,base) + NUL   -> strtol / strtoll / strtoul / strtoull (value, last, and last == nullptr)
+//       to_chars(v,base)         -> stoi / stol / stoll / stoul / stoull (value, pos), strings::to_integer<T>
+//       from_integer<terminate_with_null>(v,base) -> strto* in every base, atoi / atol / atoll in base 10
+//       to_string<Capacity>(v)   -> sto* (through the string_view conversion) and ato*/strto* on c_str()
+//     over the lattice plus the leading-digit lattice {d*base^j, d*base^j +- 1 : 1 <= d < base} and a window.
 #include "mc.hpp"
 
 #include <etl/charconv.hpp>
+#include <etl/cstdlib.hpp>
 #include <etl/string.hpp>
 #include <etl/string_view.hpp>
 #include <etl/strings.hpp>
@@ -63,8 +74,27 @@ char const* tname()
     if constexpr (std::is_same_v<T, unsigned long>) { return "unsigned long"; }
     if constexpr (std::is_same_v<T, long long>) { return "long long"; }
     if constexpr (std::is_same_v<T, unsigned long long>) { return "unsigned long long"; }
+    if constexpr (std::is_same_v<T, char8_t>) { return "char8_t"; }
+    if constexpr (std::is_same_v<T, char16_t>) { return "char16_t"; }
+    if constexpr (std::is_same_v<T, char32_t>) { return "char32_t"; }
+    if constexpr (std::is_same_v<T, wchar_t>) { return "wchar_t"; }
     return "?";
 }
+
+/// char8_t, char16_t, char32_t and wchar_t have no std::to_chars overload: the reference formats the
+/// value in the standard integer type of the same width and signedness
+template <typename T>
+inline constexpr bool is_charlike = std::is_same_v<T, char8_t> || std::is_same_v<T, char16_t> || std::is_same_v<T, char32_t> || std::is_same_v<T, wchar_t>;
+template <typename T, bool = is_charlike<T>>
+struct ref_type {
+    using type = T;
+};
+template <typename T>
+struct ref_type<T, true> {
+    using type = std::conditional_t<std::is_signed_v<T>, std::make_signed_t<T>, std::make_unsigned_t<T>>;
+};
+template <typename T>
+using ref_t = typename ref_type<T>::type;
 
 template <typename T>
 std::string show_val(T v)
@@ -186,7 +216,7 @@ struct FormatChecker {
     void one(T v, int base)
     {
         char ref[96];
-        auto const mr     = std::to_chars(ref, ref + sizeof ref, v, base);
+        auto const mr     = std::to_chars(ref, ref + sizeof ref, static_cast<ref_t<T>>(v), base);
         std::size_t const n = static_cast<std::size_t>(mr.ptr - ref);
         curV              = v;
         curBase           = base;
@@ -415,6 +445,356 @@ void job_lattice(mc::Reporter& r, long window)
     r.count("values", done);
 }
 
+
+// ---------------------------------------------------------------------------------------
+// round 2: round trips across functions (tetl formats, tetl parses, the value must come back)
+// ---------------------------------------------------------------------------------------
+
+/// lattice<T> plus the leading-digit lattice: d*base^j and d*base^j +- 1 for every digit 1 <= d < base
+/// and every j (and their negatives): every "d000..0" and "(d-1)zzz..z" pattern of every length
+template <typename T>
+std::vector<T> xlattice(int base, long window)
+{
+    i128 const lo = std::numeric_limits<T>::min();
+    i128 const hi = std::numeric_limits<T>::max();
+    std::set<i128> s;
+    for (T v : lattice<T>(base, window)) { s.insert(static_cast<i128>(v)); }
+    i128 p = 1;
+    for (int j = 0; j < 70 && p <= hi; ++j) {
+        for (int d = 1; d < base; ++d) {
+            i128 const x = p * d;
+            for (i128 e = -1; e <= 1; ++e) {
+                if (x + e >= lo && x + e <= hi) { s.insert(x + e); }
+                if (-x + e >= lo && -x + e <= hi) { s.insert(-x + e); }
+            }
+        }
+        p *= base;
+    }
+    std::vector<i128> v(s.begin(), s.end());
+    std::stable_sort(v.begin(), v.end(), [](i128 a, i128 b) {
+        i128 const aa = a < 0 ? -a : a;
+        i128 const bb = b < 0 ? -b : b;
+        if (aa != bb) { return aa < bb; }
+        return a > b;
+    });
+    std::vector<T> out;
+    for (auto x : v) { out.push_back(static_cast<T>(x)); }
+    return out;
+}
+
+inline std::string show128(i128 v)
+{
+    if (v == 0) { return "0"; }
+    bool const neg = v < 0;
+    std::string o;
+    while (v != 0) {
+        int const d = static_cast<int>(v % 10);
+        o.insert(o.begin(), static_cast<char>('0' + (d < 0 ? -d : d)));
+        v /= 10;
+    }
+    return neg ? "-" + o : o;
+}
+
+template <typename T>
+inline constexpr std::size_t max_chars = static_cast<std::size_t>(std::numeric_limits<T>::digits10) + 1 + (std::is_signed_v<T> ? 1 : 0);
+
+/// the parsers are not templates: everything that does not depend on the formatted type lives here
+/// (one instantiation for all eleven types)
+struct CrossBase {
+    static constexpr std::size_t none = static_cast<std::size_t>(-1);
+
+    mc::Reporter& r;
+    Pool pool;
+    std::uint64_t evals{0}, nontrivial{0}, formatFailed{0};
+    std::uint64_t san{mc::san_hits()};
+    char const* tn;
+    i128 lo, hi;
+
+    struct Subject {
+        std::string name;
+        bool want{false};
+        mutable int traps{0}; // a parser that trapped eight times is not called again
+    };
+    static constexpr int maxTraps = 8;
+    std::uint64_t notCalled{0};
+    int formatTraps{0};
+    // source x parser
+    Subject tcStrtol, tcStrtoll, tcStrtoul, tcStrtoull, tcStoi, tcStol, tcStoll, tcStoul, tcStoull, tcToInteger;
+    Subject fiStrtol, fiStrtoll, fiStrtoul, fiStrtoull, fiAtoi, fiAtol, fiAtoll;
+    Subject tsStoi, tsStol, tsStoll, tsStoul, tsStoull, tsAtoi, tsAtol, tsAtoll, tsStrtol, tsStrtoll, tsStrtoul, tsStrtoull;
+    bool any{false}, anyToString{false};
+
+    std::string const* subject{nullptr};
+    Subject const* curSubject{nullptr};
+    i128 curV{0};
+    int curBase{10};
+
+    Subject mk(char const* src, char const* fn)
+    {
+        Subject s{cat("round trip ", src, " -> ", fn), false};
+        s.want = r.want(s.name);
+        any    = any || s.want;
+        return s;
+    }
+
+    CrossBase(mc::Reporter& rep, char const* typeName, i128 min, i128 max)
+        : r(rep)
+        , tn(typeName)
+        , lo(min)
+        , hi(max)
+    {
+        char const* tc = "to_chars(first,last,value,base)";
+        char const* fi = "strings::from_integer<terminate_with_null=true>(value,str,length,base)";
+        char const* ts = "to_string<Capacity>(value)";
+        tcStrtol = mk(tc, "strtol(str,last,base)"), tcStrtoll = mk(tc, "strtoll(str,last,base)"), tcStrtoul = mk(tc, "strtoul(str,last,base)"), tcStrtoull = mk(tc, "strtoull(str,last,base)");
+        tcStoi = mk(tc, "stoi(str,pos,base)"), tcStol = mk(tc, "stol(str,pos,base)"), tcStoll = mk(tc, "stoll(str,pos,base)"), tcStoul = mk(tc, "stoul(str,pos,base)"), tcStoull = mk(tc, "stoull(str,pos,base)");
+        tcToInteger = mk(tc, "strings::to_integer(str,base)");
+        fiStrtol = mk(fi, "strtol(str,last,base)"), fiStrtoll = mk(fi, "strtoll(str,last,base)"), fiStrtoul = mk(fi, "strtoul(str,last,base)"), fiStrtoull = mk(fi, "strtoull(str,last,base)");
+        fiAtoi = mk(fi, "atoi(str)"), fiAtol = mk(fi, "atol(str)"), fiAtoll = mk(fi, "atoll(str)");
+        bool const before = any;
+        any               = false;
+        tsStoi = mk(ts, "stoi(str,pos,base)"), tsStol = mk(ts, "stol(str,pos,base)"), tsStoll = mk(ts, "stoll(str,pos,base)"), tsStoul = mk(ts, "stoul(str,pos,base)"), tsStoull = mk(ts, "stoull(str,pos,base)");
+        tsAtoi = mk(ts, "atoi(str)"), tsAtol = mk(ts, "atol(str)"), tsAtoll = mk(ts, "atoll(str)");
+        tsStrtol = mk(ts, "strtol(str,last,base)"), tsStrtoll = mk(ts, "strtoll(str,last,base)"), tsStrtoul = mk(ts, "strtoul(str,last,base)"), tsStrtoull = mk(ts, "strtoull(str,last,base)");
+        anyToString = any;
+        any         = any || before;
+    }
+
+    std::string value_class(i128 v) const
+    {
+        if (v == 0) { return "zero"; }
+        if (v == lo) { return "negative+min"; } // lo == 0 (unsigned) was handled above
+        if (v < 0) { return "negative"; }
+        if (v == hi) { return "positive+max"; }
+        return "positive";
+    }
+
+    std::string kase(i128 v, int base) const { return cat(tn, " value=", show128(v), " base=", base); }
+
+    /// call(consumed) parses `text` (n characters) and returns the value; consumed stays `none` when the
+    /// parser does not report how far it read.  Only called when R can hold v.
+    template <typename R, typename Call>
+    void expect(Subject const& s, i128 v, int base, char const* text, std::size_t n, Call&& call)
+    {
+        if (!s.want || v < static_cast<i128>(std::numeric_limits<R>::min()) || v > static_cast<i128>(std::numeric_limits<R>::max())) { return; }
+        if (s.traps >= maxTraps) {
+            ++notCalled;
+            return;
+        }
+        subject              = &s.name;
+        curSubject           = &s;
+        std::size_t consumed = none;
+        R const got          = call(consumed);
+        curSubject           = nullptr;
+        ++evals;
+        bool const valueOk = static_cast<i128>(got) == v;
+        bool const endOk   = consumed == none || consumed == n;
+        if (!valueOk || !endOk) {
+            VIOL(r, "C10", s.name, value_class(v), kase(v, base),
+                cat("formatted text ", show_buf(text, n), " parsed back as ", show128(static_cast<i128>(got)), consumed == none ? std::string() : cat(" consuming ", consumed, " of ", n, " characters"), " (expected ", show128(v),
+                    ", all characters)"));
+        }
+        auto const now = mc::san_hits();
+        if (now != san) {
+            san = now;
+            VIOL(r, "C02", s.name, value_class(v), kase(v, base), "ASan/UBSan report during the call (see job log)");
+        }
+    }
+
+    /// strto* / ato* on a NUL-terminated text z[0..n]
+    void c_parsers(Subject const& sl, Subject const& sll, Subject const& sul, Subject const& sull, Subject const* ai, Subject const* al, Subject const* all, i128 v, int base, char const* z, std::size_t n)
+    {
+        auto off = [z](char const* last) { return last == nullptr ? none - 1 : static_cast<std::size_t>(last - z); };
+        expect<long>(sl, v, base, z, n, [&](std::size_t& c) { char const* last = nullptr; long const x = etl::strtol(z, &last, base); c = off(last); return x; });
+        expect<long>(sl, v, base, z, n, [&](std::size_t&) { return etl::strtol(z, nullptr, base); });
+        expect<long long>(sll, v, base, z, n, [&](std::size_t& c) { char const* last = nullptr; long long const x = etl::strtoll(z, &last, base); c = off(last); return x; });
+        expect<long long>(sll, v, base, z, n, [&](std::size_t&) { return etl::strtoll(z, nullptr, base); });
+        if (v >= 0) {
+            expect<unsigned long>(sul, v, base, z, n, [&](std::size_t& c) { char const* last = nullptr; unsigned long const x = etl::strtoul(z, &last, base); c = off(last); return x; });
+            expect<unsigned long>(sul, v, base, z, n, [&](std::size_t&) { return etl::strtoul(z, nullptr, base); });
+            expect<unsigned long long>(sull, v, base, z, n, [&](std::size_t& c) { char const* last = nullptr; unsigned long long const x = etl::strtoull(z, &last, base); c = off(last); return x; });
+            expect<unsigned long long>(sull, v, base, z, n, [&](std::size_t&) { return etl::strtoull(z, nullptr, base); });
+        }
+        if (base == 10) {
+            if (ai != nullptr) { expect<int>(*ai, v, base, z, n, [&](std::size_t&) { return etl::atoi(z); }); }
+            if (al != nullptr) { expect<long>(*al, v, base, z, n, [&](std::size_t&) { return etl::atol(z); }); }
+            if (all != nullptr) { expect<long long>(*all, v, base, z, n, [&](std::size_t&) { return etl::atoll(z); }); }
+        }
+    }
+
+    /// sto* on a view of exactly n characters
+    void view_parsers(Subject const& si, Subject const& sl, Subject const& sll, Subject const& sul, Subject const& sull, i128 v, int base, etl::string_view sv)
+    {
+        char const* t       = sv.data();
+        std::size_t const n = sv.size();
+        expect<int>(si, v, base, t, n, [&](std::size_t& c) { etl::size_t pos = 9999; int const x = etl::stoi(sv, &pos, base); c = pos; return x; });
+        expect<int>(si, v, base, t, n, [&](std::size_t&) { return etl::stoi(sv, nullptr, base); });
+        expect<long>(sl, v, base, t, n, [&](std::size_t& c) { etl::size_t pos = 9999; long const x = etl::stol(sv, &pos, base); c = pos; return x; });
+        expect<long long>(sll, v, base, t, n, [&](std::size_t& c) { etl::size_t pos = 9999; long long const x = etl::stoll(sv, &pos, base); c = pos; return x; });
+        if (v >= 0) {
+            expect<unsigned long>(sul, v, base, t, n, [&](std::size_t& c) { etl::size_t pos = 9999; unsigned long const x = etl::stoul(sv, &pos, base); c = pos; return x; });
+            expect<unsigned long long>(sull, v, base, t, n, [&](std::size_t& c) { etl::size_t pos = 9999; unsigned long long const x = etl::stoull(sv, &pos, base); c = pos; return x; });
+        }
+    }
+
+    /// everything behind to_chars: f[0..n) is its output in an exact-size block
+    void after_to_chars(i128 v, int base, char const* f, std::size_t n)
+    {
+        etl::string_view const sv{f, n};
+        view_parsers(tcStoi, tcStol, tcStoll, tcStoul, tcStoull, v, base, sv);
+        // the same characters with a terminator in an exact-size block for the C-string parsers
+        char* z = pool.first(n + 1);
+        std::memcpy(z, f, n);
+        z[n] = '\0';
+        c_parsers(tcStrtol, tcStrtoll, tcStrtoul, tcStrtoull, nullptr, nullptr, nullptr, v, base, z, n);
+        if (!pool.intact(n + 1)) { VIOL(r, "C02", tcStrtol.name, value_class(v), kase(v, base), "canary bytes around the exact-size input damaged"); }
+    }
+
+    void report_trap(mc::Trap t)
+    {
+        bool const contract = t == mc::Trap::assert_fired;
+        std::string const s = subject != nullptr ? *subject : std::string("?");
+        if (curSubject != nullptr) {
+            ++curSubject->traps;
+            curSubject = nullptr;
+        } else if (++formatTraps >= maxTraps) {
+            any = false; // the formatting call itself traps: nothing left to parse
+        }
+        VIOL(r, contract ? "C05" : "C02", s, cat(value_class(curV), "/", mc::trap_name(t)), kase(curV, curBase), mc::describe_trap(t));
+        VIOL(r, "C10", s, cat(value_class(curV), "/", mc::trap_name(t)), kase(curV, curBase), cat("no result: ", mc::describe_trap(t)));
+        pool.reset();
+    }
+
+    void finish()
+    {
+        r.count("evaluations", evals);
+        r.count("distinct_nontrivial", nontrivial);
+        r.count("format_failed_not_parsed", formatFailed);
+        r.count("calls_not_made_after_eight_traps", notCalled);
+    }
+};
+
+template <typename T>
+struct CrossChecker : CrossBase {
+    static constexpr bool hasToString = std::is_same_v<T, int> || std::is_same_v<T, long> || std::is_same_v<T, long long> || std::is_same_v<T, unsigned> || std::is_same_v<T, unsigned long>
+                                     || std::is_same_v<T, unsigned long long>;
+
+    explicit CrossChecker(mc::Reporter& rep)
+        : CrossBase(rep, tname<T>(), static_cast<i128>(std::numeric_limits<T>::min()), static_cast<i128>(std::numeric_limits<T>::max()))
+    {
+    }
+
+    template <std::size_t Cap>
+    void to_string_chain(T v, std::size_t n)
+    {
+        if (n >= Cap || !anyToString) { return; } // the text must fit; a string that fills its capacity is the business of the to_string jobs
+        subject        = &tsStoi.name;
+        auto const str = etl::to_string<Cap>(v);
+        ++evals;
+        etl::string_view const sv = str; // the conversion users get when they pass the string to stoi
+        view_parsers(tsStoi, tsStol, tsStoll, tsStoul, tsStoull, static_cast<i128>(v), 10, sv);
+        c_parsers(tsStrtol, tsStrtoll, tsStrtoul, tsStrtoull, &tsAtoi, &tsAtol, &tsAtoll, static_cast<i128>(v), 10, str.c_str(), str.size());
+    }
+
+    void one(T v, int base)
+    {
+        i128 const w = static_cast<i128>(v);
+        curV         = w;
+        curBase      = base;
+        char ref[96];
+        auto const mr       = std::to_chars(ref, ref + sizeof ref, v, base);
+        std::size_t const n = static_cast<std::size_t>(mr.ptr - ref); // only used to size the buffers
+        if (v != 0) { ++nontrivial; }
+        r.outcome(mc::fnv1a(ref, n));
+
+        // to_chars into an exact-size block: the view parsers read exactly [f, f+n)
+        subject        = &tcStoi.name;
+        char* f        = pool.first(n);
+        auto const res = etl::to_chars(f, f + n, v, base);
+        ++evals;
+        if (res.ec != etl::errc{} || res.ptr != f + n) {
+            ++formatFailed; // reported by the fmt/ jobs
+        } else {
+            etl::string_view const sv{f, n};
+            expect<T>(tcToInteger, w, base, f, n, [&](std::size_t& c) {
+                auto const ti = etl::strings::to_integer<T>(sv, static_cast<T>(base));
+                c             = ti.error == etl::strings::to_integer_error::none ? static_cast<std::size_t>(ti.end - f) : none - 2;
+                return ti.value;
+            });
+            after_to_chars(w, base, f, n);
+        }
+        if (!pool.intact(n)) { VIOL(r, "C02", "to_chars(first,last,value,base)", value_class(w), kase(w, base), "wrote outside [first,last): canary bytes damaged"); }
+
+        // from_integer with terminator into an exact-size block, handed to the C-string parsers as it is
+        subject         = &fiStrtol.name;
+        char* g         = pool.first(n + 1);
+        auto const fres = etl::strings::from_integer<T>(v, g, n + 1, base);
+        ++evals;
+        if (fres.error != etl::strings::from_integer_error::none || fres.end != g + n || g[n] != '\0') {
+            ++formatFailed;
+        } else {
+            c_parsers(fiStrtol, fiStrtoll, fiStrtoul, fiStrtoull, &fiAtoi, &fiAtol, &fiAtoll, w, base, g, n);
+        }
+        if (!pool.intact(n + 1)) { VIOL(r, "C02", "strings::from_integer<terminate_with_null=true>(value,str,length,base)", value_class(w), kase(w, base), "wrote outside [str,str+length): canary bytes damaged"); }
+
+        if constexpr (hasToString) {
+            if (base == 10) {
+                to_string_chain<max_chars<T> + 1>(v, n);
+                to_string_chain<24>(v, n);
+            }
+        }
+    }
+
+    void value(T v, std::vector<int> const& bases)
+    {
+        if (!any) { return; }
+        mc::Trap const t = mc::guarded([&] {
+            for (int b : bases) { one(v, b); }
+        });
+        if (t != mc::Trap::none) { report_trap(t); }
+    }
+};
+
+template <typename T>
+void job_cross(mc::Reporter& r, long window)
+{
+    CrossChecker<T> cc(r);
+    std::uint64_t done = 0;
+    bool stop          = false;
+    for (int b : all_bases()) {
+        auto const values = xlattice<T>(b, window);
+        std::vector<int> const one{b};
+        for (T v : values) {
+            cc.value(v, one);
+            ++done;
+            if ((done & 0x3FF) == 0 && r.deadline_passed()) {
+                r.not_exhaustive("deadline");
+                stop = true;
+                break;
+            }
+        }
+        if (b == 10 || b == 36) {
+            r.sample(cat(tname<T>(), " base ", b, ": ", values.size(), " values (lattice + leading-digit lattice + window ", window, "), e.g. ", show_val(values[values.size() / 2]), ", ", show_val(values.back()),
+                "; each formatted by to_chars / from_integer", (CrossChecker<T>::hasToString && b == 10) ? " / to_string" : "", " and parsed back by every strto*/sto*/ato*/to_integer that can hold it"));
+        }
+        if (stop) { break; }
+    }
+    cc.finish();
+    r.count("values", done);
+}
+
+template <typename T>
+void add_cross(mc::Main& m)
+{
+    std::string const T_ = tname<T>();
+    m.job(cat("xrt/", T_, "/lattice+leading-digits/all-bases"), {"quick"}, [](mc::Reporter& r) { job_cross<T>(r, 1300); });
+#if !defined(MC_FLAVOUR_SAN)
+    m.job(cat("xrt/", T_, "/lattice+leading-digits+window66000/all-bases"), {"thorough"}, [](mc::Reporter& r) { job_cross<T>(r, 66000); });
+#else
+    m.job(cat("xrt/", T_, "/lattice+leading-digits+window5000/all-bases"), {"thorough"}, [](mc::Reporter& r) { job_cross<T>(r, 5000); });
+#endif
+}
+
 // ---------------------------------------------------------------------------------------
 // to_string<Capacity>
 // ---------------------------------------------------------------------------------------
@@ -606,6 +986,27 @@ int main(int argc, char** argv)
     add_type<unsigned long>(m, false, false);
     add_type<long long>(m, false, false);
     add_type<unsigned long long>(m, false, false);
+#endif
+#if !defined(MC_PART) || MC_PART == 5
+    // round 2: the remaining integral types tetl's templates accept (std has no overloads for them)
+    add_type<char8_t>(m, true, false);
+    add_type<char16_t>(m, false, true);
+    add_type<char32_t>(m, false, false);
+    add_type<wchar_t>(m, false, false);
+#endif
+#if !defined(MC_PART) || MC_PART == 4
+    // round 2: the cross-function round trips
+    add_cross<signed char>(m);
+    add_cross<unsigned char>(m);
+    add_cross<char>(m);
+    add_cross<short>(m);
+    add_cross<unsigned short>(m);
+    add_cross<int>(m);
+    add_cross<unsigned>(m);
+    add_cross<long>(m);
+    add_cross<unsigned long>(m);
+    add_cross<long long>(m);
+    add_cross<unsigned long long>(m);
 #endif
 #if !defined(MC_PART) || MC_PART == 3
     m.job("to_string/int", both, [](mc::Reporter& r) { job_to_string<int, 1, 2, 3, 4, 5, 6, 9, 10, 11, 12, 16>(r, r.thorough() ? 12000 : 1300); });
